@@ -1,5 +1,6 @@
 import MlModel.Lemmas.Piter2Shared
 import MlModel.Lemmas.Piter2Frame
+import MlModel.Lemmas.Piter2Live
 /-!
 # C13, the two-level composition `piter(iterator_fn, input_iterators=[i_1 … i_n], max_parallism=P)`
 
@@ -157,5 +158,30 @@ example : ∃ c t, Reachable (Piter.evalFn .ident none)
 stuck configurations for such pools) -/
 example : ¬ PoolOK 2 1 { piterInit 1 (some 2) none false [⟨[.val 1, .val 2], 900, []⟩, ⟨[.val 3, .val 4], 901, []⟩] [800]
                           with fifo := true } := by decide
+
+/-! ## Round 8: the no-lost-wake-up invariant of BOTH queues (generator `iterator_fn`) -/
+
+open MlModel.Queue (J1 J2 K1 K2) in
+/-- **no lost wake-up in either queue of the two-level composition** (every schedule, every size, every pool, every
+early-stop position, failing inputs and failing `iterator_fn` included; generator `iterator_fn`): in every reachable
+configuration the no-lost-wake-up invariant J1 ∧ J2 ∧ K1 ∧ K2 of `Lemmas/QueueLiveDefs.lean` holds for the INPUT queue
+seen through `q1cfg` (producers = first-level tasks, consumer = the second-level task inside `DequeueIterator(Q1).__next__`
+behind `lock1`, stoppers = the upstream stops) AND for the OUTPUT queue seen through `q2cfg` (producers = second-level
+tasks, consumer / stopper = the caller) — transferred from the queue LTS through the two views, not re-proved. -/
+theorem C13_two_no_lost_wakeup {cap1 cap2 bm1 bm2 mw : Nat} {ns : Option Nat} {inputs : List InSpec} {gens : List Nat}
+    {c : Piter2.Cfg} (h : Reachable F (Piter2.init cap1 cap2 bm1 bm2 mw ns false inputs gens) c) :
+    (J1 (q1cfg c) ∧ J2 (q1cfg c) ∧ K1 (q1cfg c) ∧ K2 (q1cfg c)) ∧
+    (J1 (q2cfg c) ∧ J2 (q2cfg c) ∧ K1 (q2cfg c) ∧ K2 (q2cfg c)) :=
+  let g := good_reachable (good_init cap1 cap2 bm1 bm2 mw ns inputs gens) h
+  ⟨⟨g.live1.j1, g.live1.j2, g.live1.k1, g.live1.k2⟩, ⟨g.live2.j1, g.live2.j2, g.live2.k1, g.live2.k2⟩⟩
+
+/-- **`lock1` is held exactly by the second-level task inside `next(DequeueIterator(Q1))`**, and every thread is in the
+phase its parts say (`Piter2.TI`): the structural invariant of the two-queue LTS. -/
+theorem C13_two_input_lock {cap1 cap2 bm1 bm2 mw : Nat} {ns : Option Nat} {inputs : List InSpec} {gens : List Nat}
+    {c : Piter2.Cfg} (h : Reachable F (Piter2.init cap1 cap2 bm1 bm2 mw ns false inputs gens) c)
+    {tid : Tid} {t : Th} (ht : c.ths[tid]? = some t) :
+    (c.ilock = some tid ↔ (t.role = .l2 ∧ (t.x = .deq ∨ t.x = .lockRel))) ∧ TI t :=
+  let g := good_reachable (good_init cap1 cap2 bm1 bm2 mw ns inputs gens) h
+  ⟨g.inv.ilock tid t ht, g.inv.ti t (List.mem_of_getElem? ht)⟩
 
 end MlModel.C13
